@@ -793,6 +793,31 @@ func c19Delay(c *Check, P string, m *MW) {
 			}
 		}
 		nGrow++
+		// the previous delay is grown only when it could be read: behind the edge on which ParseDuration reported no error
+		// (a malformed value counts as "no previous delay": the first step again, not a product with zero)
+		{
+			parseOK, _ := NilEdges(H, func(v ssa.Value) bool {
+				e, ok := v.(*ssa.Extract)
+				if !ok || e.Index != 1 {
+					return false
+				}
+				pd, ok := e.Tuple.(*ssa.Call)
+				return ok && CalleeName(pd) == "time.ParseDuration"
+			})
+			isParseErr := func(v ssa.Value) bool {
+				e, ok := v.(*ssa.Extract)
+				if !ok || e.Index != 1 {
+					return false
+				}
+				pd, ok := e.Tuple.(*ssa.Call)
+				return ok && CalleeName(pd) == "time.ParseDuration"
+			}
+			if !hasInit {
+				c.Report((len(parseOK) > 0 && GuardedBy(f.Parent(), f, parseOK)) || behindConjunctWith(f, func(bo *ssa.BinOp) bool {
+					return bo.Op == token.EQL && ((isParseErr(bo.X) && IsNilConst(bo.Y)) || (isParseErr(bo.Y) && IsNilConst(bo.X)))
+				}), P+".O4", "DELAY-GROWTH-ONLY-FROM-A-READABLE-DELAY", H, f.Pos(), "delay.For(next)", "the grown delay is used only on the edge where the previous delay parsed")
+			}
+		}
 		c.Report(okSet && hasProd && hasMax && okCap, P+".O4", "DELAY-GROWTH-CAPPED", H, f.Pos(), "delay.For(next)", "the next delay is min(previous × Multiplier, MaxInterval), the cap applied after the multiplication")
 		// and it is written to the message
 	}
@@ -903,4 +928,39 @@ func c19ContextRestored(c *Check, P, name string, m *MW) {
 	// an inline restore after the call is not enough: it is skipped when the handler panics, and a
 	// Recoverer further out then hands a message with a cancelled context to Retry
 	c.Report(restored, P+".O3", "CONTEXT-RESTORED", I, body[0].Pos(), name, "the middleware installs a derived context on the consumed message and restores the previous one in a defer, i.e. on every exit including a panic of the handler (the message is not left with a cancelled context)")
+}
+
+// behindConjunctWith: in lies on the true side of a branch whose condition is a conjunction materialised as a value
+// (`switch { case a && b: }` builds phi(false, b)) one of whose conjuncts satisfies isC; every other way into the phi
+// is the constant false.
+func behindConjunctWith(in ssa.Instruction, isC func(*ssa.BinOp) bool) bool {
+	for d := in.Block().Idom(); d != nil; d = d.Idom() {
+		if len(d.Instrs) == 0 {
+			continue
+		}
+		iff, ok := d.Instrs[len(d.Instrs)-1].(*ssa.If)
+		if !ok || len(d.Succs) != 2 || !(d.Succs[0] == in.Block() || d.Succs[0].Dominates(in.Block())) {
+			continue
+		}
+		phi, ok := iff.Cond.(*ssa.Phi)
+		if !ok {
+			continue
+		}
+		found := false
+		okAll := true
+		for _, e := range phi.Edges {
+			if k, isK := e.(*ssa.Const); isK && k.Value != nil && k.Value.String() == "false" {
+				continue
+			}
+			if bo, isBO := e.(*ssa.BinOp); isBO && isC(bo) {
+				found = true
+				continue
+			}
+			okAll = false
+		}
+		if found && okAll {
+			return true
+		}
+	}
+	return false
 }
